@@ -72,7 +72,17 @@ func (r *runner) scenarioBlob(idx int) {
 		for _, h := range topoOrder(hsx, func(h common.Hash) []common.Hash { return descs[h].need }) {
 			d := descs[h]
 			inModel[h] = true
-			r.out.Emit(fmt.Sprintf("ins %s %s %d %d %s %s", hs(h), d.kind, d.size, d.tag, hlist(d.inner), hlist(d.need)), "ok")
+			// these scripts deliberately re-insert a *different* blob under a (fake) hash that
+			// is already on disk — a collision, outside the theorems' hypothesis; the model's
+			// storeCheck must flag exactly those stores
+			want := "ok"
+			if old, onDisk := rec.m[string(h[:])]; onDisk {
+				if now, _ := ndb.Node(h); !bytes.Equal(old, now) {
+					want = "ok!pre"
+					r.stats["blob_collisions_flagged"]++
+				}
+			}
+			r.out.Emit(fmt.Sprintf("ins %s %s %d %d %s %s", hs(h), d.kind, d.size, d.tag, hlist(d.inner), hlist(d.need)), want)
 		}
 	}
 	big := rg.Chance(1, 3)
